@@ -142,7 +142,16 @@ pub fn lib_read_ex(
                     BroadcastConfirmMode::Mandatory => 0xFFFE,
                     BroadcastConfirmMode::NotRequired => 0xFFFD,
                 });
-                out.push((f.info.addr.link.raw_value(), b, f.data.to_vec()));
+                // the source of a fragment is its link address AND, on a datagram transport, the socket address it came from:
+                // encoded as (link address << 1) | peer number
+                let peer = match f.info.addr.phys {
+                    PhysAddr::Udp(a) => match a.ip() {
+                        std::net::IpAddr::V4(v4) => (v4.octets()[3] & 1) as u16,
+                        _ => 0,
+                    },
+                    PhysAddr::None => 0,
+                };
+                out.push(((f.info.addr.link.raw_value() << 1) | peer, b, f.data.to_vec()));
             }
         }
     }
@@ -394,6 +403,9 @@ pub enum Mutation {
     Broadcast(u16, u8),
     /// datagram transport only: segment i arrives from another socket address (same link address)
     Peer(u16),
+    /// datagram transport only: before datagram i, the OTHER socket address sends a datagram that holds only the first
+    /// half of a link frame (it delivers nothing, and nothing of it may stick to what follows)
+    PartialDatagram(u16),
 }
 
 #[derive(Clone, Debug, Serialize, Deserialize)]
@@ -459,6 +471,7 @@ impl Prop for Mutated {
             any::<u16>().prop_map(Mutation::EmptyFrame),
             (any::<u16>(), 0u8..3).prop_map(|(i, k)| Mutation::Broadcast(i, k)),
             any::<u16>().prop_map(Mutation::Peer),
+            any::<u16>().prop_map(Mutation::PartialDatagram),
         ];
         (
             prop_oneof![
@@ -598,6 +611,7 @@ impl Prop for Mutated {
                     out.label("broadcast_segment");
                     k
                 }
+                Mutation::PartialDatagram(_) => continue,
                 Mutation::Peer(i) => {
                     if !case.datagram {
                         continue;
@@ -620,7 +634,16 @@ impl Prop for Mutated {
                 out.label("empty_frame");
             }
         }
-        let exp = expected_fragments_ex(&segs, case.rx_buffer as usize);
+        // (sources encoded as (link address << 1) | socket peer, as lib_read_ex reports them)
+        let segs_enc: Vec<Segment> = segs
+            .iter()
+            .map(|s| {
+                let mut e = s.clone();
+                e.src = (s.src << 1) | (s.peer as u16 & 1);
+                e
+            })
+            .collect();
+        let exp = expected_fragments_ex(&segs_enc, case.rx_buffer as usize);
         if let Some(f) = first_mutated {
             out.label("mutated");
             // is there a clean fragment that starts after the first mutation point?
@@ -672,6 +695,15 @@ impl Prop for Mutated {
                     }
                 }
             }
+            for m in &case.mutations {
+                if let Mutation::PartialDatagram(i) = m {
+                    let k = idx(*i, v.len() + 1);
+                    let next_peer = v.get(k).and_then(|p| p.peer).unwrap_or(0);
+                    let whole = rl::encode(0xC4, OUTSTATION, MASTER_A, &[0xC0, 0xC0, 0x01, 0x3C, 0x02, 0x06]);
+                    v.insert(k, Piece { data: whole[..whole.len() / 2].to_vec(), peer: Some(next_peer ^ 1) });
+                    out.label("partial_datagram_from_the_other_peer");
+                }
+            }
             v
         } else {
             let mut bytes = vec![];
@@ -713,7 +745,7 @@ impl Prop for Mutated {
         // fragment; broadcast segments: one segment only, or reassembled like any others) every consistent choice is right
         let alternatives: Vec<Vec<(u16, Option<u16>, Vec<u8>)>> = [(true, false), (false, true), (true, true)]
             .iter()
-            .map(|(d, b)| expected_fragments_policy(&segs, case.rx_buffer as usize, *d, *b))
+            .map(|(d, b)| expected_fragments_policy(&segs_enc, case.rx_buffer as usize, *d, *b))
             .collect();
         if got != exp && alternatives.iter().any(|a| *a == got) {
             out.label("another_admissible_policy");
@@ -729,8 +761,9 @@ impl Prop for Mutated {
                 v.iter()
                     .map(|(s, bc, b)| {
                         format!(
-                            "src{}{}:{}B:{:016x}",
-                            s,
+                            "src{}{}{}:{}B:{:016x}",
+                            s >> 1,
+                            if s & 1 == 1 { "'" } else { "" },
                             bc.map(|a| format!("->{a:#x}")).unwrap_or_default(),
                             b.len(),
                             xxhash_rust::xxh64::xxh64(b, 0)
